@@ -89,6 +89,7 @@ class Registry:
         self.specs: Dict[str, Callable] = {}
         self.lemmas: List[Any] = []
         self.externals: Dict[Any, Any] = {}
+        self.symbolic_globals: Dict[str, str] = {}   # 'module:attr' -> kind (mutable settings)
 
     def contract(self, target, **kw):
         import inspect
